@@ -35,7 +35,8 @@ RULE = ('cases from one PRNG: (a) "path": request.propagate on a designed networ
         'amplifiers are listed C,L or L,C, launched with 3-6 dB between the L and the C partition; (a3) NLI method ggn_approx with an explicit computed_channels list that leaves out up to 5 '
         'first and up to 8 last channels of a mixed-rate comb (32G/50GHz block next to a 64G/75GHz block, power offset per '
         'block); Raman fibres pumped above the band and/or from BELOW the channels (190-190.9 THz pumps under a C-band '
-        'comb, co- and counter-propagating); (b) "shuffle": the elements of such a path in random order on a spectrum whose channels '
+        'comb, co- and counter-propagating); (a4) a small high-power stream: ROADM-less lines crossed in '
+        'path order with +12..+25 dBm per channel (no skip); (b) "shuffle": the elements of such a path in random order on a spectrum whose channels '
         'already carry random ASE and NLI shares; (c) malformed: amplifier / multiband amplifier called with no channel '
         'in its band (ValueError). Non-trivial: >= 1 fibre, >= 1 amplifier and >= 1 passive element (ROADM/fused) were '
         'crossed; distinct = canonical JSON of the case')
@@ -54,8 +55,27 @@ MODEL_KIND = {'Fused': 'fused', 'Roadm': 'roadm', 'Fiber': 'fiber', 'RamanFiber'
 SLACK = 1e-9
 
 
+def gen_high_power(rng, tier):
+    """the statement quantifies over EVERY launched spectrum: lines without ROADM (nothing equalises the launch power down)
+    crossed in path order with +12..+25 dBm per channel"""
+    if rng.random() < 0.4:
+        net, src, dst = 'edfa', None, None
+    else:
+        d = S.gen_topology(rng, max_roadms=2, raman=False)
+        d['hops'] = d['hops'][:1]
+        for sp in d['hops'][0]:
+            sp['disp'] = None if rng.random() < 0.7 else sp.get('disp')
+        d['roadms'] = [None, None]
+        net, src, dst = {'desc': d}, 'trx 0', 'trx 1'
+    return {'kind': 'path', 'net': net, 'src': src, 'dst': dst, 'pick': [rng.random(), rng.random()], 'sim': None,
+            'uniform_grid': False, 'nch': rng.choice([1, 2, 4, 8]), 'mb': None, 'ggn': None, 'cseed': rng.getrandbits(32),
+            'pmax_dbm': 10.0, 'order': None, 'high_power': [rng.choice([12.0, 15.0, 18.0]), rng.choice([20.0, 22.0, 25.0])]}
+
+
 def gen(rng, tier, widen=False):
     k = rng.random()
+    if k < 0.04:
+        return gen_high_power(rng, tier)
     if k < 0.72:
         return S.gen_path_case(rng, tier, False)
     if k < 0.93:
@@ -100,6 +120,9 @@ def monitor_call(res, call, si_views, where):
     idx = {float(f): i for i, f in enumerate(b['freq'])}
     sel = np.array([idx.get(float(f), -1) for f in a['freq']], dtype=int)
     if len(sel) == 0 or np.any(sel < 0):
+        # an output frequency that was not in the input: nothing to compare per channel (the channel-set correspondence
+        # below reports it); counted, not silent
+        res.stats['monitor_call_unmatched_output_frequency'] += 1
         return
     bb = {k: b[k][sel] for k in ('p', 's', 'a', 'n')}
     nb = _nsr(bb)
@@ -301,6 +324,10 @@ def run_path(case, drv):
     passive = sum(kinds.count(k) for k in ('Roadm', 'Fused'))
     res.nontrivial = ('Fiber' in kinds or 'RamanFiber' in kinds) and ('Edfa' in kinds or 'Multiband_amplifier' in kinds) \
         and passive > 0
+    if case.get('high_power'):
+        res.stats['high_power_cases'] += 1
+        res.stats['high_power_max_dbm_into_a_fibre_x10'] += int(10 * max(
+            [float(10 * np.log10(np.max(c.before['p']) * 1e3)) for c in rec.calls if c.kind in ('Fiber', 'RamanFiber')] or [0.0]))
     res.stats.update({f'{case["kind"]}_cases': 1, 'elements_crossed': len(rec.calls), 'channels': len(f0),
                       'channel_element_pairs_monitored': len(f0) * len(rec.calls),
                       f'net_{case["net"] if isinstance(case["net"], str) else ("mbchain" if "mbhops" in case["net"] else "generated")}': 1, 'sim_' + str(case['sim']): 1})
@@ -326,6 +353,15 @@ def run_path(case, drv):
             i = int(np.nonzero(arg < 0)[0][0])
             res.fail(f'negative-noise: {kind} inside {uid!r} was given a negative power for channel {i} ({arg[i]!r} W)')
             break
+    # finding class `nli-exceeds-channel-power`: a fibre handed add_nli an NLI power >= the channel power (seen only far above
+    # +10 dBm per channel): the signal share goes negative and the three figures lose their meaning from there on. Only the
+    # ratio monitors of such a case are filed under this class; everything else stays unlisted.
+    # (class restricted to channels that enter the glass ABOVE +10 dBm: an NLI >= channel power at ordinary powers stays unlisted)
+    if any(kind == 'addNli' and np.any((arg >= p0) & (p0 > 10e-3)) for kind, (p0, _, _, _), arg, _, _ in rec.op_events):
+        res.stats['nli_at_or_above_channel_power_cases'] += 1
+        for f in res.failures:
+            if f['what'].split(':')[0] in ('improves', 'improves-reported', 'amplifier-nli', 'fibre-ase'):
+                f['cls'] = 'nli-exceeds-channel-power'
     # every attenuation/gain call (connector, padding, VOA, fibre loss, gain) leaves the shares bit-identical
     for kind, (p0, s0, a0, n0), arg, (p1, s1, a1, n1), uid in rec.op_events:
         if kind in ('attLin', 'attDb', 'gainLin', 'gainDb'):
